@@ -19,7 +19,11 @@ META["text"] = (
     "has, for each dof i, the row = ancestor chain of i (each element the parent of the next, the first a root) in strictly increasing order followed by i itself (diagonal last; the diagonal only for reduced simple dofs), "
     "rownnz = row lengths, rowadr = prefix sums, diag = position of the diagonal, every row of an ancestor j of i is a prefix of the row of i (the property mj_factorI relies on), and the CSR slices are these rows; "
     "(2) C06_fullM_mulM: for every matrix with this structure (any values, any forest, all sizes) mj_fullM(M) v = mj_mulM(M, v) over R, and mj_fullM is symmetric; "
-    "(3) C06_solve_factor_partial: see Props/C06.v for exactly what is proved about mj_factorI / mj_solveLD. "
+    "(3) C06_solve_factor (FULL, not partial): for every forest, every dof_simplenum under which a dof with a non-reduced row has no ancestor with a reduced row (the compiler marks only childless world-children as simple), "
+    "every matrix with the structure (any values) and every x: if the pivots stored by mj_factorI are non-zero then w = mj_solveLD(mj_factorI(M), x) satisfies mj_fullM(M) w = x and mj_mulM(M, w) = x (over R, all sizes, index = NULL, one right-hand side); "
+    "C06_factorI: on any diagonal-last triangular structure with the prefix property the in-place reverse-order elimination stores L, D, 1/D with L'DL = M (proof: invariant M = sum_{i>=k} l_i D_i l_i' + remaining Schur block, the prefix update is exactly the Schur update "
+    "because two off-diagonal columns s < r of a row always have s in the row of r); C06_solveLD: the three passes (zero-skip and diagonal-row shortcuts included) solve (L'DL) w = x. "
+    "Positive definiteness of M (hence positive pivots) is NOT proved, it is an oracle check. "
     "NOT proved, oracle only (on implementation outputs of compiled random trees with free/ball/slide/hinge joints, branching, several trees, joint armature, fixed tendons with and without tendon armature): "
     "M symmetric positive definite and equal to sum_b J_b' I_b J_b + armature (+ tendon armature), L'DL reconstructs M, mj_solveM(mj_mulM v) = v, mj_fullM v = mj_mulM v, qfrc_bias = mj_rne(0), "
     "mj_rne(a) - mj_rne(0) + armature.a (+ tendon armature term) = M a (mj_rne itself carries no armature term: the identity of the property statement holds with the armature added, as mj_inverse does). "
@@ -173,7 +177,7 @@ def run(ctx):
             if rng.random() < 0.6:
                 feat |= FEAT[name]
         nbody = rng.choice([1, 2, 3, 4, 5, 6, 8, 10])
-        flags = 1 if (feat & FEAT["TENDON"]) and rng.random() < 0.5 else 0
+        flags = (1 if (feat & FEAT["TENDON"]) and rng.random() < 0.5 else 0) | (2 if rng.random() < 0.5 else 0)
         seed = rng.randrange(1, 10 ** 6)
         reqs.append(("model", {"seed": seed, "feat": feat, "nbody": nbody, "flags": flags}, "model %d %d %d %d" % (seed, feat, nbody, flags)))
     reqs.append(("tendemo", {"armature": 0.5, "coef": [1.0, 1.0]}, "tendemo %s %s %s" % (hx(0.5), hx(1.0), hx(1.0))))
